@@ -169,6 +169,7 @@ def run(ck: Checker):
         ck.check(legal, 'C16.ARITY', m, m.func('_get_arity'), f'the format\'s operand count of {t} ({a}) is a legal arity of its operator',
                  f'_get_arity({t}) = {a} but the operator takes {cls}', construct=f'_get_arity({t}) = {a}')
     gate_round_trip(ck, m, it, types, ids, arity)
+    refuses_fold = not any(o.rule == 'C16.GATE-RT' and o.status == 'violation' for o in ck.obligations)
     eg = m.func('_encode_gate')
     gparam = eg.args.args[1].arg
     loops = [n for n in ast.walk(eg) if isinstance(n, ast.For) and f'{gparam}.operands' in norm(n.iter)]
@@ -176,14 +177,16 @@ def run(ck: Checker):
         # another way of writing the operand words: the operand-count clause is decided by the fold above (C16.GATE-RT)
         loops = [eg]
     lp = loops[0]
-    bounded = norm(lp.iter) in (f'{gparam}.operands[:_get_arity({gparam}.gate_type)]',)
+    bounded = lp is not eg and norm(lp.iter) in (f'{gparam}.operands[:_get_arity({gparam}.gate_type)]',)
     guard = False
-    for test, pol in dominating_tests(m, eg, lp):
+    for test, pol in (dominating_tests(m, eg, lp) if lp is not eg else []):
         if not pol and norm(test) in (f'len({gparam}.operands) != _get_arity({gparam}.gate_type)', f'_get_arity({gparam}.gate_type) != len({gparam}.operands)'):
             # the negated test dominates because the guarded block always leaves; it must leave by raising the codec error
             for s in eg.body:
                 if isinstance(s, ast.If) and s.test is test and always_raises(s.body) and 'CircuitEncodingError' in norm(s.body[-1]):
                     guard = True
+    if lp is eg:
+        guard = refuses_fold
     ck.check(guard or bounded or lp is eg, 'C16.ARITY', m, lp, 'the encoder writes exactly as many operand words as the decoder will read (or refuses the gate with CircuitEncodingError)',
              'the operand loop writes len(operands) words but the decoder reads _get_arity(type): a gate with another operand count decodes to a silently different circuit',
              construct='_encode_gate operand loop')
@@ -243,8 +246,27 @@ def run(ck: Checker):
             if len(c.args) == 2 and norm(c.args[1]) == 'word_size':
                 writes.append((f, c))
     min_arity = min(arity.values()) if arity else 0
+    def origin(f, e, depth=0):
+        """A written name that is a loop variable over a (sorted / copied) list of identifiers denotes one of them."""
+        if depth > 4 or not isinstance(e, ast.Name):
+            return e
+        for lp_ in ast.walk(f):
+            if isinstance(lp_, (ast.For, ast.comprehension)) and isinstance(lp_.target, ast.Name) and lp_.target.id == e.id:
+                src = lp_.iter
+                while True:
+                    if isinstance(src, ast.Call) and norm(src.func) in ('sorted', 'list', 'tuple', 'reversed') and src.args:
+                        src = src.args[0]
+                    elif isinstance(src, ast.Name) and single_def(f, src.id) is not None:
+                        src = single_def(f, src.id)
+                    else:
+                        break
+                if isinstance(src, (ast.ListComp, ast.GeneratorExp)):
+                    return origin(f, src.elt, depth + 1)
+        d = single_def(f, e.id)
+        return origin(f, d, depth + 1) if d is not None else e
+
     for f, c in writes:
-        x = norm(c.args[0])
+        x = norm(origin(f, c.args[0]))
         cp = next((a.arg for a in f.args.args if a.arg == 'circuit'), 'circuit')
         xs = x.replace(cp, 'C')
         if xs in margs:
